@@ -22,10 +22,6 @@ KNOWN_CLASSES = {
     "oq-panic:controls-gt-64": "C18-controls-gt-64-panic",
     "cq-panic:controls-gt-64": "C18-controls-gt-64-panic",
     "latex-panic:controls-gt-64": "C18-controls-gt-64-panic",
-    "exec-panic:measure-all-len": "C19-abort-exec-measure-all-len",
-    "reps-diverge:measure-all-len": "C18-measure-all-len-diverges",
-    "reps-diverge:arity": "C18-cond-arity-diverges",
-    "silently-accepted:arity": "C18-cond-arity-diverges",
     "oq-panic:arity": "C19-abort-export-qasm-arity",
     "cq-panic:arity": "C19-abort-export-qasm-arity",
     "oq-panic:measure-all-len": "C19-abort-export-qasm-measure-all-len",
@@ -37,8 +33,6 @@ KNOWN_CLASSES = {
     "cq-panic:bad-composite": "C18-composite-unvalidated-subgates",
     "latex-panic:bad-composite": "C13-composite-subbit-panic",
     "latex-panic:ctrl-between-targets": "C13-ctrl-between-targets-panic",
-    "latex-panic:resetall-no-qubits": "C13-resetall-zero-qubits-panic",
-    "latex-panic:empty-barrier": "C18-latex-empty-barrier-panic",
 }
 
 # witnesses in the c18 protocol (`<nq> <nc> | calls | <shots>`) for the findings whose committed witness is written in
@@ -46,11 +40,9 @@ KNOWN_CLASSES = {
 WITNESS_C18 = {
     "D9-zero-shots-panic": "1 1 | add_conditional_gate 1 0 1 1 0 X | 0",
     "C13-ctrl-between-targets-panic": "3 0 | add_gate 3 1 0 2 CCX | 1",
-    "C13-resetall-zero-qubits-panic": "0 0 | reset_all | 1",
     "C13-composite-subbit-panic": "1 0 | add_gate 1 0 Comp c1 1 1 H 1 1 | 1",
     "C19-abort-exec-cbit-ge-64": "1 65 | measure 0 64 | 1",
     "C19-abort-exec-dup-qubits": "1 0 | cx 0 0 | 1",
-    "C19-abort-exec-measure-all-len": "1 2 | peek_all 2 0 0 | 1",
     "C19-abort-export-qasm-arity": "1 0 | add_gate 0 H | 1",
     "C19-abort-export-qasm-measure-all-len": "1 3 | measure_all 2 1 2 | 1",
     "C19-abort-export-cqasm-cond-control-ge-nq": "1 2 | add_conditional_gate 1 1 1 1 0 X | 1",
@@ -83,9 +75,10 @@ SPEC = {
                  "builder_accepts_iff", "builder_appends", "builder_errors", "builder_never_panics", "builder_sequences",
                  "no_panic_partial", "no_panic_reexecute_partial", "exec_either_representation_partial",
                  "reps_same_constructor_partial",
-                 "neg_zero_shots", "neg_repeated_qubit", "neg_measure_all_short", "neg_peek_all_long", "neg_cbit_ge_64",
-                 "neg_controls_gt_64", "neg_cond_arity_diverges", "neg_empty_operands_export",
-                 "neg_ctrl_between_targets", "neg_reset_all_no_qubits", "neg_empty_barrier", "neg_cqasm_control_ge_nq", "neg_composite_subgate_out_of_range"],
+                 "neg_zero_shots", "neg_repeated_qubit", "measure_all_short_same_error", "peek_all_long_same_error",
+                 "measure_all_len_rejected_identically", "neg_cbit_ge_64",
+                 "neg_controls_gt_64", "cond_arity_same_error", "gate_arity_rejected_identically", "neg_empty_operands_export",
+                 "neg_ctrl_between_targets", "reset_all_no_qubits_exports", "empty_barrier_exports", "neg_cqasm_control_ge_nq", "neg_composite_subgate_out_of_range"],
     "drivers": ["drv_c18"],
     "harness_bin": "c18",
     "eq": eq,
@@ -164,8 +157,7 @@ def run(ctx):
         "exporters: that a WellFormed circuit is exported without a panic is NOT proved; the outcome class of open_qasm / c_qasm is "
         "compared with a class predicate written from the exporter code (Model/ExportClass.lean), of latex with the C13 model; "
         "the QASM text is C11/C12",
-        "the stabilizer peek_all on an over-long list is modelled through the flat cell array (Model/StabFlat.lean); the register "
-        "sizes generated stay below 5 qubits (allocation aborts such as 1<<60 qubits are outside the run)",
+        "the register sizes generated stay below 5 qubits (allocation aborts such as 1<<60 qubits are outside the run)",
         "matrix-mode gate routes on a REPEATED qubit: the model stops where Rust asserts on the total element count; with an even "
         "number of ranges the implementation goes on with garbage (accepted as `panic-or-garbage`, inside the dup-qubits class)",
         "that the Rust code has no panic site the models lack is established by reading and by the correspondence run only",
